@@ -232,6 +232,12 @@ pub fn run(a: &Args) -> Report {
             rep.sample(json!({"seed": a.seed, "round": round, "proto": proto.name(), "users": n_users, "threads": t, "ops_per_thread": ops, "operations": ["tcp request+response through shared salt cache", "client flow from shared client context", "udp client encode/decode (global cipher cache)", "udp server decode/encode on one shared codec, colliding session ids"]}));
         }
     }
+    // the security check that concurrent flows share: copies of one handshake presented at the same instant
+    {
+        let mut rng = Rng::derive(a.seed, 0xC09C, 0);
+        let mut cx = super::c10::Cx { rep: &mut rep, seed: a.seed, prop: "C09" };
+        super::c10::tcp_server_concurrent(&mut cx, &mut rng, a.n(120, 2000));
+    }
     rep.extra.insert("interleavings".into(), json!({"distinct_overlap_patterns": overlap_sets.len(), "peak_threads_overlapping": max_conc, "rounds": rounds}));
     rep.mon("distinct_overlap_patterns", overlap_sets.len() as u64);
     rep
